@@ -1015,14 +1015,14 @@ def gen_c01_cases(fmts, tcases, fastpaths, rng, tier):
                 fd = dsts[k % len(dsts)]
                 fs = fd
                 fm = None if mode == "none" else msks[k % len(msks)]
-                pres = rng.choice([0, 1, 2, 3, 4, 5, 6])
-                mpres = rng.choice([0, 0, 1])
+                pres = rng.choice([0, 1, 2, 3, 4, 5, 6, 8])
+                mpres = rng.choice([0, 0, 1, 3])
             else:
                 fd = dsts[k % len(dsts)]
                 fs = rng.choice(srcs)
                 fm = None if mode == "none" else rng.choice(msks)
-                pres = rng.choice([0, 0, 1, 2, 3, 4, 4, 5, 6])
-                mpres = rng.choice([0, 0, 0, 1])
+                pres = rng.choice([0, 0, 1, 2, 3, 4, 4, 5, 6, 8])
+                mpres = rng.choice([0, 0, 0, 1, 3])
             out.append(build_row(tc, fs, fm, fd, pres, mpres, rng, "class"))
             if rep == 0 and (k // per_case) % 3 == 0:
                 # a chain: a second operator applied to the destination the first one left (state continuity)
